@@ -35,7 +35,8 @@ type gitLogRec struct {
 	Faulted   bool     `json:"faulted"`
 	Pid       int      `json:"pid"`
 	OutText   string   `json:"out_text"`
-	Ended     bool     `json:"-"` // an "end" line was seen (false: git-sizer was gone before the command ended)
+	Snap      string   `json:"snap"` // digest of VERIF_SNAP_DIR when the invocation began ("" when not asked for)
+	Ended     bool     `json:"-"`    // an "end" line was seen (false: git-sizer was gone before the command ended)
 }
 
 func buildFakeGit(c *Ctx) string {
@@ -126,6 +127,7 @@ type faultRun struct {
 }
 
 type c10Env struct {
+	extraEnv []string // more environment for runAddr
 	c        *Ctx
 	env      *scanEnv
 	fake     string
